@@ -50,21 +50,90 @@ for m in ["startVoting", "sendVoteProof", "sendVote", "finishVoting"]:
 for m in ["deposit", "push"]:
     _floors["RefundableOracleLock1.%s:ok" % m] = 1
 
+# ---- same-block sequences: [failed contract txs in front of / behind successful ones of other senders] versus the
+# same block without the failed ones (c15_seq_test.go). One sequence per chain step, the controlled ends rotate
+# deterministically through the failure classes, so these counts hardly depend on the seed (quick floors are about
+# 0.4 x the minimum over seeds 1..5; the thorough tier runs about 11 x the steps of the quick tier, floors 5 x).
+_seq = {
+    "seq_pairs": 440,                                  # block pairs compared
+    "oracle1_failures_checked_in_sequence": 1400,      # failed txs checked to have left no trace inside a multi-tx block
+    "seq_success_receipts_compared": 1000,             # receipts of successful txs compared byte by byte
+    "seq_failed_followed_by_success": 1000, "seq_failed_preceded_by_success": 690,
+    "seq_FFS": 310, "seq_SFS": 210,                    # >= 2 failed txs in front of a success; success - failure - success
+    "seq_FS_engines:emb>emb": 270, "seq_FS_engines:emb>wasm": 160, "seq_FS_engines:wasm>emb": 120, "seq_FS_engines:wasm>wasm": 120,
+    "seq_SF_engines:emb>emb": 220, "seq_SF_engines:emb>wasm": 85, "seq_SF_engines:wasm>emb": 120, "seq_SF_engines:wasm>wasm": 75,
+    "seq_FS_success_kind:Call.emb": 190, "seq_FS_success_kind:Call.wasm": 140, "seq_FS_success_kind:Deploy.emb": 190,
+    "seq_FS_success_kind:Deploy.wasm": 75, "seq_FS_success_kind:Terminate.emb": 12,
+    # a failed EMBEDDED deployment whose Deploy() returned an error, followed by a successful tx
+    "seq_FS:Deploy.emb:args>Call.emb": 48, "seq_FS:Deploy.emb:args>Deploy.emb": 56,
+    "seq_FS:Deploy.emb:args>Call.wasm": 35, "seq_FS:Deploy.emb:args>Deploy.wasm": 22,
+}
+# failure class of F (tx kind . engine : why it failed) with >= 1 success behind it / in front of it in the same block
+for k, q in {
+    "Deploy.emb:args": 100, "Deploy.emb:out-of-gas": 50,
+    "Call.emb:amount": 48, "Call.emb:args": 50, "Call.emb:caller": 42, "Call.emb:method": 30, "Call.emb:out-of-gas": 70, "Call.emb:state": 140,
+    "Call.wasm:args": 60, "Call.wasm:method": 20, "Call.wasm:out-of-gas": 40, "Call.wasm:state": 60,
+    "Deploy.wasm:code": 32, "Deploy.wasm:out-of-gas": 10,
+    "Terminate.emb:args": 9, "Terminate.emb:caller": 38, "Terminate.emb:state": 30, "Terminate.emb:out-of-gas": 6, "Terminate.emb:txtype": 2,
+}.items():
+    _seq["seq_F_then_S:" + k] = q
+for k, q in {
+    "Deploy.emb:args": 59, "Deploy.emb:out-of-gas": 33,
+    "Call.emb:amount": 27, "Call.emb:args": 42, "Call.emb:caller": 24, "Call.emb:method": 16, "Call.emb:out-of-gas": 54, "Call.emb:state": 110,
+    "Call.wasm:args": 44, "Call.wasm:method": 9, "Call.wasm:out-of-gas": 24, "Call.wasm:state": 38,
+    "Deploy.wasm:code": 17, "Deploy.wasm:out-of-gas": 6,
+    "Terminate.emb:caller": 17, "Terminate.emb:state": 20,
+}.items():
+    _seq["seq_S_then_F:" + k] = q
+for k, q in _seq.items():
+    _floors[k] = (q, 5 * q)
+
+# ---- recipients: methods that name an address and move value are called with the contract's OWN address
+# (counted when the tx succeeded and - where the method moves coins - moved > 0): dest_class:<kind>.<method>:<class>
+_floors.update({
+    "dest_class:TimeLock.transfer:self": (7, 40), "dest_class:Multisig.push:self": (10, 60), "dest_class:Multisig.send:self": (25, 150),
+    "dest_class:Multisig.add:self": (1, 8), "dest_class:wasm:spender.send:self": (4, 25),
+    "dest_class:RefundableOracleLock2.deposit:self": (3, 18),
+    "dest_class:OracleLock.deploy:self": (4, 25), "dest_class:RefundableOracleLock2.deploy:self": (5, 30),
+    # the scripted job deploys locks that name themselves and pushes them (V12 and V9): deterministic
+    "dest_class:OracleLock.push:self": 2, "dest_class:RefundableOracleLock2.push:self": 1, "dest_class:RefundableOracleLock1.push:self": 1,
+    # stake refund of a termination to the terminated contract itself (TimeLock / Multisig / RefundableOracleLock)
+    "dest_class_any_contract:terminate:self": (5, 30),
+    # ERC-20 tokens sent to oneself (contract semantics, see assumptions)
+    "dest_class:wasm:erc20.transfer:sender": (1, 6),
+    # the other special recipients, any contract kind
+    "dest_class_any_contract:transfer:sender": (4, 24), "dest_class_any_contract:transfer:contract": (2, 14),
+    "dest_class_any_contract:push:sender": (1, 8), "dest_class_any_contract:push:contract": (1, 8),
+    "dest_class_any_contract:send:contract": (8, 48), "dest_class_any_contract:send:proposer": (4, 24), "dest_class_any_contract:send:god": (2, 12),
+    "dest_class_any_contract:send:zero": (3, 18), "dest_class_any_contract:deploy:self": (14, 80),
+})
+
 SPEC = {
     "engine": "E1", "level": "exploration",
-    "technique": "twin blocks (same proposed block with / without one contract tx) + receipts + K re-executions on fresh check states; "
-                 "generated deploy/call/terminate sequences on every embedded contract type and the bundled WASM contracts, also fed into a real multi-replica chain",
+    "technique": "twin blocks (same proposed block with / without one contract tx; same multi-tx block with / without its FAILED contract txs) + receipts + "
+                 "K re-executions on fresh check states; generated deploy/call/terminate sequences on every embedded contract type and the bundled WASM contracts "
+                 "(recipient arguments incl. the contract's own address), also fed into a real multi-replica chain",
     "level_text": "Each generated contract transaction (valid shapes derived from the on-chain contract state; mutated arity / widths / garbage / foreign methods / "
                   "callers / pay amounts / tips / gas budgets incl. a sweep of budgets ending inside a successful execution) is built into a block by the real ProposeBlock "
                   "and applied by the real validateBlock next to its tx-free twin. Oracles: (1) a failed receipt => full state contents differ only in the sender's account, "
                   "the proposer's account/identity and the fee rate of Global; (2) sender charged <= MaxFee+tips, GasCost+txFee <= MaxFee, GasUsed <= (MaxFee-txFee)/feePerGas; "
                   "(3) sum of balances+stakes+contract stakes does not grow, nothing negative in the pre-encoding view; (4) mini-models of TimeLock transfer, Multisig add/send/push, "
                   "deploy/terminate bookkeeping, ERC-20 token conservation after success; (5) every contract block re-executed K>=4 times must be accepted with byte-identical "
-                  "receipts, incl. the designated classes 'votes + finishVoting in one block' and 'deposits + refund in one block'.",
+                  "receipts, incl. the designated classes 'votes + finishVoting in one block' and 'deposits + refund in one block'. "
+                  "(6) same-block sequences: once per chain step the contract txs of the step (incl. the gas-sweep variant that runs out of gas half-way) plus txs built to fail "
+                  "(bad / missing deploy and call arguments so that Deploy/Call returns an error after none or some writes, unknown method, foreign caller, foreign terminator, too small pay amount, "
+                  "gas budget ending inside Deploy/Call, broken WASM code) and to succeed (embedded and WASM deploys, any-caller calls) go into ONE block built by the real ProposeBlock, "
+                  "signers distinct, order F,S / S,F / F,F,S / F,S,F fixed through the nonces; the block is compared with the block built from the same pool without the txs whose receipt says failure: "
+                  "receipts of the successful txs byte-identical, post-states differ only in what oracle (1) allows (same code), no contract at the address of a failed deployment, "
+                  "failed senders' nonce and charge <= MaxFee+tips, conservation. "
+                  "Recipients: every method that names an address (TimeLock transfer, Multisig add/send/push, terminate refunds, lock deploy parameters / push / deposit fee, "
+                  "spender send, ERC-20 transfer) is called with the contract's own address, the sender, the zero address, another contract, the proposer and the god address; "
+                  "the mini-models treat a payment of the contract to itself as neutral (balance changes by the pay amount only) and demand amount <= what the contract holds.",
     "level_note": "trusted base: ProposeBlock/validateBlock twin construction, fee.CalculateFee for the size-based fee, state iteration; "
                   "the Rust WASM runtime is linked as a prebuilt static library (its internals are observed only through receipts and state)",
-    "rule": "case = one contract tx evaluated as a twin pair (or one designated multi-tx block); distinct_nontrivial = distinct "
-            "(contract type, tx kind, method, outcome, error class, gas failure point) tuples that were included in a block and produced a receipt",
+    "rule": "case = one contract tx evaluated as a twin pair, one designated multi-tx block, or one same-block sequence pair (block with >= 1 failed contract tx versus the "
+            "same block without the failed ones); distinct_nontrivial = distinct (contract type, tx kind, method, outcome, error class, gas failure point) tuples that were "
+            "included in a block and produced a receipt, plus distinct sequence shapes (ordered list of S(tx kind.engine) / F(tx kind.engine:failure class))",
     "jobs": [
         Job("twins", "verifsim", "^TestVerifC15$", shards=(8, 16), timeout=(900, 7200)),
         # scripted form of the designated same-block classes (votes + finishVoting, deposits + refund), V12 and V9
@@ -90,5 +159,7 @@ SPEC = {
         "besides the bundled WASM contracts (none of which ever moves coins) a 216-byte hand-assembled module 'wasm:spender' (source in c15_contracts.go) forwards its arguments to the "
         "host's create_transfer_promise / burn, so that 'a contract can never send more than it holds' is exercised for WASM too",
         "the ERC-20 mini-model exempts transfers to oneself: the bundled contract credits them without debiting (contract semantics, not the node's)",
+        "same-block sequences: the block order is the pool's (ascending account nonce); the harness fixes it by re-signing with strictly increasing nonces and filling a signer's nonce gap "
+        "with plain 1-unit self-transfers, which are part of both blocks of a pair; a CallContractTx to an address without code is invalid (never included), so 'not a contract' is no failure class",
     ],
 }
